@@ -162,7 +162,7 @@ CLAIMS = {
             "type and assigns the id exactly when one was passed; set_oid labels the node found at the path through _set_oid or makes one "
             "node of the given type there; get_path is the full path of exactly the node the id map binds, get_oid the id of the node the "
             "path lookup resolves, neither changes a binding; _rename refuses the root before touching anything and otherwise detaches the "
-            "node, deletes whatever sits at the new path and inserts the same node there, in that order; set_metadata replaces the "
+            "node first, deletes nothing but the new path (always, when there is nothing to move) and inserts the same node there last; set_metadata replaces the "
             "metadata of exactly the node resolved.",
             "Exhaustive only up to the stated sequence length. Lemmas: delete / __make_node / Node.full_path (and, in the _update lemma, "
             "_get_node / _delete / _set_oid / set_metadata; in the _rename lemma _get_node / _delete / delete / __insert_node / _check) "
